@@ -46,6 +46,7 @@ class InlinePool:
 
     def __init__(self, *a, **k):
         self.calls = 0
+        self.ncpus = self.nodes = 1      # the pathos pool exposes its size under both names
 
     def __enter__(self):
         return self
